@@ -264,6 +264,27 @@ func stripConv(v ssa.Value) ssa.Value {
 					v = w
 					continue
 				}
+				// a call of a pure getter (one block, returns a field load) stands for that load
+				if call, ok := v.(*ssa.Call); ok {
+					if fn := call.Call.StaticCallee(); fn != nil && theCtx.InModule(fn) && len(fn.Blocks) == 1 {
+						if ret, ok := fn.Blocks[0].Instrs[len(fn.Blocks[0].Instrs)-1].(*ssa.Return); ok && len(ret.Results) == 1 {
+							rv := ret.Results[0]
+							for {
+								cv, isConv := rv.(*ssa.Convert)
+								if !isConv {
+									break
+								}
+								rv = cv.X
+							}
+							if u, ok := rv.(*ssa.UnOp); ok && u.Op == token.MUL {
+								if _, isFA := u.X.(*ssa.FieldAddr); isFA {
+									v = u
+									continue
+								}
+							}
+						}
+					}
+				}
 			}
 			return v
 		}
